@@ -201,36 +201,90 @@ def shift_of(e: ast.AST) -> Optional[Tuple[str, int]]:
     return None
 
 
-def cascade_shifts(fn: FuncInfo) -> Optional[List[int]]:
-    """Shift amounts of a prefix-xor cascade `t = xor(x, x >> s)`; None if the body is not such a cascade."""
+def _int_const(e: ast.AST) -> Optional[int]:
+    v = const_value(e)
+    if isinstance(v, int) and not isinstance(v, bool):
+        return v
+    if isinstance(e, ast.BinOp):
+        a, b = _int_const(e.left), _int_const(e.right)
+        if a is None or b is None:
+            return None
+        if isinstance(e.op, ast.Pow) and 0 <= b <= 128:
+            return a ** b
+        if isinstance(e.op, ast.LShift) and 0 <= b <= 128:
+            return a << b
+        if isinstance(e.op, ast.Mult):
+            return a * b
+        if isinstance(e.op, ast.Add):
+            return a + b
+        if isinstance(e.op, ast.Sub):
+            return a - b
+    return None
+
+
+def cascade_shifts(fn: FuncInfo, guards: Optional[list] = None) -> Optional[List[int]]:
+    """Shift amounts of a prefix-xor cascade `t = xor(x, x >> s)`; None if the body is not such a cascade.
+
+    A step may be guarded by a test on the largest input value (`if largest >= 2**s: t = xor(t, t >> s)`); each such
+    guard is appended to `guards` as (shift, smallest value for which the step runs or None when the test is not understood, node)."""
     shifts: List[int] = []
-    for s in fn.node.body:
-        if isinstance(s, ast.Expr) and isinstance(s.value, ast.Constant):
-            continue
-        if isinstance(s, ast.Return):
-            continue
-        val = None
-        if isinstance(s, ast.Assign):
-            val = s.value
-        elif isinstance(s, ast.AugAssign) and isinstance(s.op, ast.BitXor):
+    bounds = set()                                    # names holding max(num)
+    params = {p for p in fn.params}
+
+    def step(s) -> Optional[int]:
+        if isinstance(s, ast.AugAssign) and isinstance(s.op, ast.BitXor):
             sh = shift_of(s.value)
             if sh is None or sh[0] != norm(s.target):
                 return None
-            shifts.append(sh[1])
-            continue
-        if val is None:
+            return sh[1]
+        if not isinstance(s, ast.Assign):
             return None
-        ops = xor_operands(val)
+        ops = xor_operands(s.value)
         if ops is None:
             return None
         a, b = ops
         sa, sb = shift_of(a), shift_of(b)
         if sa is not None and sa[0] == norm(b):
-            shifts.append(sa[1])
-        elif sb is not None and sb[0] == norm(a):
-            shifts.append(sb[1])
-        else:
+            return sa[1]
+        if sb is not None and sb[0] == norm(a):
+            return sb[1]
+        return None
+
+    for s in fn.node.body:
+        if isinstance(s, ast.Expr) and isinstance(s.value, ast.Constant):
+            continue
+        if isinstance(s, ast.Return):
+            continue
+        if isinstance(s, ast.Assign) and len(s.targets) == 1 and isinstance(s.targets[0], ast.Name):
+            v = s.value
+            if isinstance(v, ast.Name) and v.id in params:
+                continue                                                   # temp = num
+            if isinstance(v, ast.Call) and norm(v.func) in ('np.max', 'np.amax', 'max', 'numpy.max') and v.args \
+                    and isinstance(v.args[0], ast.Name) and v.args[0].id in params:
+                bounds.add(s.targets[0].id)
+                continue
+        if isinstance(s, ast.If) and not s.orelse and len(s.body) == 1 and guards is not None:
+            k = step(s.body[0])
+            if k is None:
+                return None
+            t = s.test
+            runs_from = None
+            if isinstance(t, ast.Compare) and len(t.ops) == 1 and isinstance(t.left, ast.Name) and t.left.id in bounds:
+                thr = _int_const(t.comparators[0])
+                if thr is not None and isinstance(t.ops[0], ast.GtE):
+                    runs_from = thr
+                elif thr is not None and isinstance(t.ops[0], ast.Gt):
+                    runs_from = thr + 1
+            elif isinstance(t, ast.BinOp) and isinstance(t.op, ast.RShift) and isinstance(t.left, ast.Name) and t.left.id in bounds \
+                    and _int_const(t.right) is not None:
+                runs_from = 1 << _int_const(t.right)
+            guards.append((k, runs_from, s))
+            shifts.append(k)
+            continue
+        k = step(s)
+        if k is None:
             return None
+        shifts.append(k)
     return shifts
 
 
@@ -309,7 +363,18 @@ def _check_gray2binary(ctx: Ctx) -> None:
                 ctx.error('C15.b: gray2binary loop form not recognised')
             return
     else:
-        shifts = cascade_shifts(fn)
+        guards: list = []
+        shifts = cascade_shifts(fn, guards)
+        for k, runs_from, node in (guards if shifts is not None else []):
+            if runs_from is None:
+                ctx.error('C15.b: the shift-%d step of gray2binary is guarded by `%s`, a test that is not a comparison of the largest input '
+                          'with a constant (cannot tell)' % (k, norm(node.test)[:60]))
+            ok = runs_from <= (1 << k)
+            ctx.obligation('C15.b', 'gray2binary', ok, {'guarded_step': k, 'runs_for_largest_value_from': runs_from, 'needed_from': 1 << k})
+            if not ok:
+                ctx.violation('C15.b', 'gray2binary', 'the shift-%d step is skipped unless the largest value is at least %d, but every value from '
+                              '2^%d = %d on needs it: gray2binary(%d) is decoded without its top bit being propagated' % (k, runs_from, k, 1 << k, 1 << k),
+                              fn.path, node.lineno, operand='guard:%d' % k)
     if shifts is None:
         ctx.error('C15.b: gray2binary is neither a shift cascade nor a recognised loop (idiom unknown)')
     sset = sorted(set(shifts))
